@@ -418,7 +418,59 @@ func (r *rewriter) expr(e ast.Expr) ast.Expr {
 	return e
 }
 
+// osFileAPI: members of package os that touch the file system; in the DHCP handler package they are served by vfs.
+var osFileAPI = map[string]bool{"OpenFile": true, "Create": true, "Open": true, "WriteFile": true, "ReadFile": true, "Rename": true,
+	"Remove": true, "RemoveAll": true, "Stat": true, "Lstat": true, "MkdirAll": true, "Mkdir": true, "Chmod": true, "Truncate": true, "Link": true,
+	"CreateTemp": true, "File": true}
+
+// osFileUnsupported: file system members of package os that vfs does not model; using them is a hard error.
+var osFileUnsupported = map[string]bool{"Symlink": true, "Readlink": true, "ReadDir": true, "MkdirTemp": true, "Chown": true, "Chtimes": true, "DirFS": true, "Getwd": true, "Chdir": true}
+
+func (r *rewriter) rewriteOSFiles(f *ast.File) {
+	if !strings.Contains(r.file, "/handlers/dhcp4_spoofer/") {
+		return
+	}
+	importsOS, osStillUsed := false, false
+	for _, imp := range f.Imports {
+		if imp.Path.Value == `"os"` {
+			importsOS = true
+		}
+	}
+	if !importsOS {
+		return
+	}
+	ast.Inspect(f, func(n ast.Node) bool {
+		se, ok := n.(*ast.SelectorExpr)
+		if !ok {
+			return true
+		}
+		x, ok := se.X.(*ast.Ident)
+		if !ok || x.Name != "os" {
+			return true
+		}
+		if pn, ok := r.info.Uses[x].(*types.PkgName); !ok || pn.Imported().Path() != "os" {
+			return true
+		}
+		switch {
+		case osFileAPI[se.Sel.Name]:
+			se.X = ast.NewIdent("vfs")
+			r.needFS = true
+			r.stats["fileop"]++
+		case osFileUnsupported[se.Sel.Name]:
+			r.errorf(se.Pos(), "unsupported file system function os.%s", se.Sel.Name)
+		default:
+			osStillUsed = true
+		}
+		return true
+	})
+	if r.needFS && !osStillUsed {
+		// keep the import of os used
+		f.Decls = append(f.Decls, &ast.GenDecl{Tok: token.VAR, Specs: []ast.Spec{&ast.ValueSpec{Names: []*ast.Ident{ast.NewIdent("_")}, Values: []ast.Expr{sel("os", "ErrNotExist")}}}})
+	}
+}
+
 func (r *rewriter) rewriteFile(f *ast.File) {
+	r.rewriteOSFiles(f)
 	// imports
 	for _, imp := range f.Imports {
 		p, _ := strconv.Unquote(imp.Path.Value)
